@@ -22,6 +22,7 @@ package geojson
 //@   arith order
 //@   entry use rootGlobalsInit()
 //@   ensures Shape: okShape(result0, result1)
+//@   ensures C07Empty: len(data) == 0 ==> result1 != nil
 //@   ensures RequireValid: result1 == nil && opts != nil && opts.RequireValid && !rvOpen(result0) ==> oValidS(result0)
 //@   loop 0 invariant i >= 0 && len(data) <= len(old(data))
 //@   loop 0 decreases len(data)
@@ -80,9 +81,10 @@ package geojson
 //@   requires keys != nil && opts != nil
 //@   ensures Shape: result2 != nil ==> result1 == nil
 //@   ensures Fresh: result1 != nil ==> !old($alloc)[result1]
+//@   ensures C07Dims: (result2 == nil && result1 != nil) ==> ((result1.dims == 1 || result1.dims == 2) && len(result1.values) == result1.dims && len(result1.members) == 0)   // a position keeps at most two extra ordinates (2..4 numbers)
 //@   call 0 iterinv 0 <= count && count <= 4
 //@   call 0 iterstop 0 <= count && count <= 4
-//@   loop 0 invariant 2 <= i && i <= count && count <= 4 && ex != nil && !old($alloc)[ex] && len(ex.values) == count-2
+//@   loop 0 invariant 2 <= i && i <= count && count <= 4 && ex != nil && !old($alloc)[ex] && len(ex.values) == count-2 && ex.dims == count-2 && len(ex.members) == 0
 //@   loop 0 invariant forall e *extra :: old($alloc)[e] ==> (e.dims == old(e.dims) && e.values == old(e.values))
 //@   loop 0 decreases count - i
 
@@ -119,6 +121,7 @@ package geojson
 //@   entry use rootGlobalsInit()
 //@   requires keys != nil && opts != nil
 //@   ensures Shape: okShape(result0, result1)
+//@   ensures C07Line: result1 == nil ==> (isLineStringK(result0) && geometry.sNpts(lineOf(result0).baseSeries) >= 2)   // a line with fewer than two positions is rejected
 //@   ensures RequireValid: result1 == nil && opts.RequireValid ==> oValidS(result0)
 
 //@ lemma polyShapeCopy(P *geometry.Poly, Q *geometry.Poly)
@@ -131,6 +134,9 @@ package geojson
 //@   props C05 C07 C08
 //@   requires isRectK(o) || (isPolygonK(o) && polyShapeS(polyOf(o)))
 //@   ensures ObjShape(o)
+//@ spec func ringOK(s geometry.Series) bool { geometry.sNpts(s) >= 4 && geometry.sPt(s, 0) == geometry.sPt(s, geometry.sNpts(s)-1) }
+//@ spec func holesOK(P *geometry.Poly) bool opaque { forall h int :: (0 <= h && h < geometry.polyNHoles(P)) ==> ringOK(geometry.polyHole(P, h)) }
+//@ spec func ptsRingOK(ps []geometry.Point) bool { len(ps) >= 4 && geometry.ptAt(ps, 0) == geometry.ptAt(ps, len(ps)-1) }
 //@ func parseJSONPolygon
 //@   props C05 C07 C08
 //@   arith order
@@ -138,11 +144,24 @@ package geojson
 //@   entry use rootGlobalsInit()
 //@   requires keys != nil && opts != nil
 //@   ensures Shape: okShape(result0, result1)
+//@   ensures C07Kind: result1 == nil ==> (isPolygonK(result0) || isRectK(result0))
+//@   ensures C07Rings: (result1 == nil && isPolygonK(result0)) ==> (geometry.polyExt(polyOf(result0)) != nil && ringOK(geometry.polyExt(polyOf(result0))) && holesOK(polyOf(result0)))   // no ring, a ring of fewer than four positions or an unclosed ring is rejected
+//@   loop 0 invariant Checked: forall k int :: (0 <= k && k < $i) ==> ptsRingOK(geometry.holeAt(coords, k))
+//@   loop 0 assert geometry.holeAt(coords, $i) == p
 //@   ensures RequireValid: result1 == nil && opts.RequireValid ==> oValidS(result0)
 //@   loop 0 invariant Frame: (forall P *geometry.Poly :: old($alloc)[P] ==> (P.Exterior == old(P.Exterior) && P.Holes == old(P.Holes))) && (forall q *Polygon :: old($alloc)[q] ==> q.extra == old(q.extra)) && (forall e *extra :: old($alloc)[e] ==> e.members == old(e.members))
 //@   loop 0 invariant FreshX: extra != nil ==> !old($alloc)[extra]
+//@   stmt polygon.go:"gopts := toGeometryOpts(opts)" assert AllRings: forall k int :: (0 <= k && k < len(coords)) ==> ptsRingOK(geometry.holeAt(coords, k))
+//@   stmt polygon.go:"gopts := toGeometryOpts(opts)" assert ExtIs: exterior == geometry.holeAt(coords, 0)
+//@   stmt polygon.go:"gopts := toGeometryOpts(opts)" assert HolesAre: forall h int :: (0 <= h && h < len(holes)) ==> geometry.holeAt(holes, h) == geometry.holeAt(coords, h+1)
+//@   stmt polygon.go:"g.base = *poly" assert PExt: ringOK(geometry.polyExt(poly))
+//@   stmt polygon.go:"g.base = *poly" assert PHoles: forall h int :: (0 <= h && h < geometry.polyNHoles(poly)) ==> ringOK(geometry.polyHole(poly, h))
+//@   stmt polygon.go:"o = &g" assert GExt: geometry.polyExt(g.base) == geometry.polyExt(poly) && geometry.polyNHoles(g.base) == geometry.polyNHoles(poly) && (forall h int :: geometry.polyHole(g.base, h) == geometry.polyHole(poly, h))
+//@   stmt polygon.go:"o = &g" assert GHoles: holesOK(g.base)
 //@   stmt polygon.go:"o = &g" use polyShapeCopy(poly, g.base)
 //@   stmt polygon.go:"o = &g" assert GShape: geometry.PolyShape(g.base)
+//@   stmt polygon.go:"if opts.RequireValid {" assert MExt: isPolygonK(o) ==> (geometry.polyExt(polyOf(o)) != nil && ringOK(geometry.polyExt(polyOf(o))))
+//@   stmt polygon.go:"if opts.RequireValid {" assert MHoles: isPolygonK(o) ==> holesOK(polyOf(o))
 //@   stmt polygon.go:"if opts.RequireValid {" assert Kind: isRectK(o) || (isPolygonK(o) && polyShapeS(polyOf(o)))
 //@   stmt polygon.go:"if opts.RequireValid {" use shapeOfRectOrPolygon(o)
 
